@@ -81,7 +81,7 @@ ENGINES["delsim"] = {
 ENGINES["byzsim"] = {
     "serves": ["C11"],
     "kind": "a byzantine peer as a fault kind: a live victim (sync tree over any-store, ACL views of several accounts, ldiff index, secure services, rpc encoding wrapper, pubsub engine) receives structure-aware corruptions of the valid traffic an honest peer produces for the state the victim is in, interleaved with honest progress",
-    "real_vs_stub": {"real": ["objecttree (AddRawChanges, ValidateRawTree, change builder/validator, tree builder)", "synctree handlers (HandleHeadUpdate, HandleStreamRequest, HandleResponse) with request factory and response producer",
+    "real_vs_stub": {"real": ["objecttree (AddRawChanges, ValidateRawTree, change builder/validator, tree builder)", "synctree handlers (HandleHeadUpdate, HandleStreamRequest, HandleResponse) with request factory and response producer, BuildSyncTreeOrGetRemote with the remote getter and the full-response collector", "headsync.NewRemoteDiff (client side)",
                               "acl list (AddRawRecord(s), ValidateRawRecord) in owner/writer/reader views, record builder for the honest history (adds, permission changes, removals with key rotation, invites, join requests, accepts, read-key changes)",
                               "innerstorage.KeyValueFromProto", "headsync.HandleRangeRequest + app/ldiff Diff", "secureservice.HandshakeInbound/Outbound (both credential checkers, handshake frame reader)",
                               "spacepayloads validators", "util/crypto decoders and decrypters", "net/rpc/encoding (proto and snappy wrappers)", "pubsub.HandleMessage", "spacestorage, any-store on tmpfs"],
@@ -225,7 +225,7 @@ PROPS = {
         "rule": "one run = a random non-empty subset of 9 entry-point families (tree, acl, kv, diff, handshake, payload, crypto, encoding, pubsub) and 20-120 steps; a step is honest progress (the honest peer edits the tree incl. snapshots and encrypted content; the owner or a joining account appends the next valid ACL record; index grows) or one hostile delivery guarded by the three oracles. "
                 "Hostile inputs are derived from the valid message for the victim's current state by a type-independent protobuf wire mutator (field removed / duplicated / reordered / renumbered, wire type changed, varint zero / extreme / bit flip, byte string emptied / shortened to 1-40 bytes / replaced by 1,31,32,33,64,200 random bytes, length prefix edited to +-1, +100, 0, 2^20, 2^31, 2^32-1, 2^62, truncation anywhere, field spliced from another message of the same world, raw bit flips / random bytes / duplicated segments) "
                 "applied at every nesting level: sync envelope, tree message, change envelope, signed change content (then signed again by owner, writer or reader so that it passes the signature check), ACL record envelope, signed record, ACL content incl. encrypted read keys and invite keys (signed again by owner or member), key-value envelope and signed inner value, head-sync request, handshake frame payloads and headers (types 0-4, sizes 0..2^29, cut frames), space header / ACL root / settings root, key and ciphertext blobs, encoded rpc frames incl. snappy blocks that claim 2^20..2^29 decoded bytes, pubsub frames; "
-                "plus reference edits on changes (0-3 arbitrary parents incl. trimmed, unknown and odd ids, duplicated parents, re-pointed snapshot base, flipped snapshot flag, replaced ACL head / read key id, attachment to the root after snapshots) and on records (previous id replaced), arbitrary heads and snapshot paths, a whole hostile tree offered for creation, and an ldiff remote that lies. "
+                "plus reference edits on changes (0-3 arbitrary parents incl. trimmed, unknown and odd ids, duplicated parents, re-pointed snapshot base, flipped snapshot flag, replaced ACL head / read key id, attachment to the root after snapshots) and on records (previous id replaced), arbitrary heads and snapshot paths, a whole hostile tree offered for creation, a fetch of a tree the victim does not hold answered with corrupted or missing responses, an honest head-sync server whose answers are corrupted on the wire, and an ldiff remote that lies. "
                 "Oracles per delivery: no panic (recover; panics in goroutines of the code under test kill the worker and are classified by the driver), the call returns (real-time watchdog outside the bubble, 20 s; fake-clock deadlines for blocking reads; 5000-request and 10000-response caps), bytes allocated during the call <= 48 MiB + 512 x input size (runtime.MemStats.TotalAlloc delta). evaluations = guarded deliveries.",
         "assumptions": COMMON_ASSUMPTIONS + ["the coverage-guided byte-string half of the quantifier is fuzzing and outside this technique: inputs here are corruptions of traffic the simulated system itself produced in states it reached",
                                              "accepted hostile input is not judged here (C02-C04, C12, C14, C17 decide what may be accepted); an ACL view that accepts a hostile record is rebuilt from the authoritative history",
